@@ -35,7 +35,7 @@ TECHNIQUE = 'runtime reference-model monitor: independent exact integer oracle o
 SHARD_TIMEOUT = {'quick': 600, 'thorough': 3000}
 
 NSHARDS = 16
-NRANDOM = {'quick': 60, 'thorough': 1500}          # random argument tuples per function per shard
+NRANDOM = {'quick': 60, 'thorough': 700}           # random argument tuples per function per shard
 PRIME_RANGE = {'quick': 200000, 'thorough': 3000000}
 
 DET_BOUND = 340000000000000      # "deterministically below 3.4*10^14"
@@ -442,6 +442,19 @@ def run_isprime(libmp, mp, rec, n, tag):
                       observed=repr(got), expected=repr(exp))
 
 
+def run_int_primitive(libmp, rec, name, n):
+    """libmp.ifac / ifac2 / ifib called directly (the cached integer primitives named in the property's anchors): exact ints"""
+    exp = {'ifac': I.factorial, 'ifac2': lambda k: int(I.fac2(k)), 'ifib': I.fib}[name](n)
+    rec.case(('libmp.' + name, n), n > 20, cls='libmp.%s/%s/exact-int' % (name, bucket(n)))
+    try:
+        got = getattr(libmp, name)(n)
+    except Exception as e:
+        got = repr(e)
+    if isinstance(got, bool) or not isinstance(got, int) or got != exp:
+        rec.violation('C25/libmp.%s/%s/exact-int' % (name, bucket(n)), 'libmp.%s(%d) is not the exact integer' % (name, n),
+                      {'fn': 'libmp.' + name, 'args': [n], 'prec': 53}, observed=repr(got)[:200], expected=str(exp)[:200])
+
+
 def run_moebius(libmp, rec, n):
     exp = I.moebius(n)
     rec.case(('moebius', n), abs(n) > 30, cls='moebius/%s' % exp)
@@ -582,6 +595,12 @@ def run_shard(shard, rec):
                 mg.append(r.choice([r.randint(2, 10**4), r.randint(2, 10**9), r.randint(2, 10**15), r.randint(10**29, 10**30)]))
         for v in mg:
             work.append(('mangoldt', (v,)))
+        for name, lst in (('ifac', [0, 1, 2, 5, 20, 999, 1000, 1001, 1002, 1500]), ('ifac2', [0, 1, 2, 7, 8, 999, 1000, 1001, 1002, 1003, 1501]),
+                          ('ifib', [0, 1, 2, -1, -2, -7, 10, 248, 249, 250, 251, 300, 1000])):
+            for v in lst:
+                work.append(('libmp.' + name, (v,)))
+            for _ in range(max(3, shard['n'] // 6)):
+                work.append(('libmp.' + name, (r.choice([r.randint(0, 30), r.randint(0, 300), r.randint(990, 1010), r.randint(0, 2500)]),)))
         r.shuffle(work)
         # histories: on odd shards warm the caches from the top first, on even shards the sequence starts cold
         if shard['shard'] % 2:
@@ -592,6 +611,8 @@ def run_shard(shard, rec):
                 run_bernfrac(mp, rec, a[0])
             elif fn == 'mangoldt':
                 run_mangoldt(mp, rec, a[0], r.choice([53, 53, G.pick_prec(r, big=False)]))
+            elif fn.startswith('libmp.'):
+                run_int_primitive(libmp, rec, fn[6:], a[0])
             elif fn == 'bernoulli-chain':
                 rec.event('bernoulli cache-chain calls')
                 run_mpf_case(mp, rec, None, 'bernoulli', (a[0],), a[1])
@@ -704,5 +725,7 @@ def replay(case, rec):
         run_moebius(libmp, rec, args[0])
     elif fn == 'list_primes':
         run_list_primes(libmp, rec, args[0])
+    elif fn.startswith('libmp.'):
+        run_int_primitive(libmp, rec, fn[6:], args[0])
     else:
         run_mpf_case(mp, rec, None, fn, args, p, exact_flag=bool(c.get('exact')))
